@@ -405,6 +405,8 @@ struct Delivery {
   id: i64,
   /// the writer id the DATA claims: the peer's matched writer, or (forged) another one
   claimed_writer: EntityId,
+  /// K flag instead of D flag
+  key_only: bool,
 }
 
 pub fn run(scenario: u32, choices: &[u8], _strict: bool) -> Outcome {
@@ -698,6 +700,9 @@ fn run_mode(scenario: u32, choices: &[u8], hostile: bool) -> Outcome {
       };
       let (payload_form, wrapper) = if forged_writer.is_some() { (PayloadForm::Plain, Wrapper::None) } else { (payload_form, wrapper) };
       let claimed_writer = forged_writer.unwrap_or(e.remote);
+      // DATA with the K flag instead of the D flag: the payload is a serialized key (what dispose /
+      // unregister send). Payload protection covers it like any other payload.
+      let key_only = e.is_reader && e.name.starts_with("user-reader") && c.chance(45);
       let id = {
         let n = next_id.entry(ep).or_insert(0);
         *n += 1;
@@ -734,9 +739,9 @@ fn run_mode(scenario: u32, choices: &[u8], hostile: bool) -> Outcome {
             reader_id: if explicit { eid_bytes(e.local) } else { [0, 0, 0, 0] },
             writer_id: eid_bytes(claimed_writer),
             sn: id,
-            inline_qos: None,
+            inline_qos: if key_only { Some(vec![(wire::PID_STATUS_INFO, vec![0, 0, 0, 1])]) } else { None },
             payload: Some(wire_payload),
-            key_flag: false,
+            key_flag: key_only,
           },
         );
         one_sub(&lp, wire::DATA, f, &b)
@@ -807,6 +812,7 @@ fn run_mode(scenario: u32, choices: &[u8], hostile: bool) -> Outcome {
           wrapper: wrapper_eff,
           id,
           claimed_writer,
+          key_only,
         },
         plain_payload,
       ));
@@ -982,7 +988,7 @@ fn run_mode(scenario: u32, choices: &[u8], hostile: bool) -> Outcome {
           .get_changes_in_range_best_effort(Timestamp::ZERO, Timestamp::INFINITE)
           .find(|(_, cc)| cc.writer_guid == GUID::new(lp, d.claimed_writer) && i64::from(cc.sequence_number) == d.id)
           .map(|(_, cc)| match &cc.data_value {
-            crate::dds::ddsdata::DDSData::Data { serialized_payload } => {
+            crate::dds::ddsdata::DDSData::Data { serialized_payload } | crate::dds::ddsdata::DDSData::DisposeByKey { key: serialized_payload, .. } => {
               let mut v = serialized_payload.representation_identifier.bytes.to_vec();
               v.extend_from_slice(&serialized_payload.representation_options);
               v.extend_from_slice(&serialized_payload.value);
@@ -1003,7 +1009,7 @@ fn run_mode(scenario: u32, choices: &[u8], hostile: bool) -> Outcome {
         ["-", "-", "own", "other"][info_dst],
         if e.is_reader { "DATA" } else { "ACKNACK" },
         d.id,
-        if forged { format!(" claiming writer id {:?}", d.claimed_writer) } else { String::new() },
+        format!("{}{}", if d.key_only { " (K flag: serialized key)" } else { "" }, if forged { format!(" claiming writer id {:?}", d.claimed_writer) } else { String::new() }),
         e.name,
         e.sub,
         e.payload,
@@ -1055,6 +1061,9 @@ fn run_mode(scenario: u32, choices: &[u8], hostile: bool) -> Outcome {
       }
       if forged {
         o.label(if lacks_protection { "forged-writer-id-unprotected" } else { "forged-writer-id-nothing-required" });
+      }
+      if d.key_only {
+        o.label(if lacks_protection { "key-only-DATA-unprotected" } else { "key-only-DATA" });
       }
       if e.exempt && rtps != Prot::None && !srtps_eff && arrived {
         o.label("exempt-topic-plaintext-accepted");
